@@ -81,11 +81,15 @@ Theorem C01_mixed_cmp_partial : forall i f, in_i64 i -> Z.abs i <= 2 ^ 53 ->
 Proof. exact mixed_cmp_partial. Qed.
 Print Assumptions C01_mixed_cmp_partial.
 
-(* the reference side is exact: lvm.c LTintfloat / LEintfloat decide i < f and i <= f as mathematical
-   comparisons for every int64 i and every float f (finite, infinite or NaN) *)
+(* the reference side is exact: lvm.c LTintfloat / LEintfloat / LTfloatint / LEfloatint and
+   luaV_equalobj decide the mathematical comparison for every int64 i and every float f (finite,
+   infinite or NaN) *)
 Theorem C01_lua_mixed_cmp_exact : forall i f, in_i64 i ->
-  lua_lt_if i f = exact_lt_if i f /\ lua_le_if i f = exact_le_if i f.
-Proof. intros. split; [apply lua_lt_if_exact|apply lua_le_if_exact]; assumption. Qed.
+  lua_lt_if i f = exact_lt_if i f /\ lua_le_if i f = exact_le_if i f /\
+  lua_lt_fi f i = exact_lt_fi f i /\ lua_le_fi f i = exact_le_fi f i /\ lua_eq_if i f = exact_eq_if i f.
+Proof.
+  intros. repeat split; [apply lua_lt_if_exact|apply lua_le_if_exact|apply lua_lt_fi_exact|apply lua_le_fi_exact|apply lua_eq_if_exact]; assumption.
+Qed.
 Print Assumptions C01_lua_mixed_cmp_exact.
 
 (* ---- core 2: numeric for ---- *)
